@@ -57,7 +57,11 @@ class Harness(cm.BaseB):
     def one_trough(self, case):
         Vr, C = case["V"], case["C"]
         lw = rt.Trough("L", Vr, C, min_volume=0, max_volume=10)
-        return self.geometry(lw, Geo("L", "trough", Vr, C), f"trough {Vr}vx{C}")
+        o1, k1, v1 = self.geometry(lw, Geo("L", "trough", Vr, C), f"trough {Vr}vx{C}")
+        # the same trough declared through the generic constructor
+        lw2 = rt.Labware("L", 1, C, min_volume=0, max_volume=10, virtual_rows=Vr)
+        o2, k2, v2 = self.geometry(lw2, Geo("L", "trough", Vr, C), f"trough {Vr}vx{C} via Labware(virtual_rows=...)")
+        return o1, k1, v1 + v2
 
     def geometry(self, lw, g, what):
         V = []
